@@ -159,7 +159,23 @@ func c08MacroNest(r *fw.Rand) string {
 	return s
 }
 
+// c08Adjacent glues a term that may end in a dice letter, a default-sided die or a keyword-like
+// token to every operator token and a following operand, with and without blanks: the places
+// where a longer token or another rule's look-ahead could claim the operator.
+func c08Adjacent(r *fw.Rand) string {
+	term := r.Pick([]string{"2d", "d", "3d6", "2d6kh", "2d6k", "4d6dl", "d20优势", "f", "b", "p2", "3a8", "2c8", "a5", "x", "2", "1.5", "(1+1)d", "4d", "2d6q1", "xs[0]", "`t`", "'s'", "f(1)", "2d6min2", "1d1max"})
+	op := r.Pick([]string{"%", "%%", "+", "-", "*", "/", "//", "**", "^", "<", "<=", "==", "!=", ">=", ">", "&", "&&", "|", "||", "?", ":", "??", ",", ".", "..", "=", "!", "~", "@", "#", "$", "k", "q", "d", "m", "kh", "min", "max"})
+	operand := r.Pick([]string{"4", "(2)", "x", "d6", "2d", "k1", "'s'", "[1]", "", "1 : 2", "-1", "(", "%"})
+	sp1, sp2 := r.Pick([]string{"", "", " "}), r.Pick([]string{"", "", " "})
+	pre := r.Pick([]string{"", "", "1 + ", "x = ", "10 - (", "[", "&c = ", "func g() { ", "`{"})
+	post := map[string]string{"10 - (": ")", "[": "]", "func g() { ": " }; g()", "`{": "}`"}[pre]
+	return pre + term + sp1 + op + sp2 + operand + post
+}
+
 func c08Source(r *fw.Rand) (string, string) {
+	if r.P(1, 12) {
+		return c08Adjacent(r), "adjacent"
+	}
 	switch k := r.Intn(25); {
 	case k >= 23:
 		return c08MacroNest(r), "macro-nest"
